@@ -305,6 +305,17 @@ func (r *resolver) ResolveType(t *parser.Type) (err error) {
 // included IDL or -1 if the enum is defined in the given AST.
 // When such an enum is not found, getEnum returns (nil, -1).
 func getEnum(ast *parser.Thrift, name string) (enum *parser.Enum, includeIndex int32) {
+	return getEnumOnce(ast, name, map[string]bool{})
+}
+
+// getEnumOnce is getEnum with the typedefs already followed, so that a cycle of typedefs ends the
+// search (the cycle itself is reported when the typedefs are resolved).
+func getEnumOnce(ast *parser.Thrift, name string, seen map[string]bool) (enum *parser.Enum, includeIndex int32) {
+	if key := ast.Filename + "\x00" + name; seen[key] {
+		return nil, -1
+	} else {
+		seen[key] = true
+	}
 	c, exist := ast.Name2Category[name]
 	if !exist {
 		return nil, -1
@@ -321,12 +332,12 @@ func getEnum(ast *parser.Thrift, name string) (enum *parser.Enum, includeIndex i
 			panic(fmt.Errorf("expect %q to be an typedef in %q, not found", name, ast.Filename))
 		} else {
 			if r := x.Type.Reference; r != nil {
-				e, _ := getEnum(ast.Includes[r.Index].Reference, r.Name)
+				e, _ := getEnumOnce(ast.Includes[r.Index].Reference, r.Name, seen)
 				if e != nil {
 					return e, r.Index
 				}
 			}
-			return getEnum(ast, x.Type.Name)
+			return getEnumOnce(ast, x.Type.Name, seen)
 		}
 	}
 	return nil, -1
